@@ -74,19 +74,21 @@ TRS2 == [t |-> P(0, 0, 5), axis |-> 1, turns |-> 2, s |-> <<2, 1, 1>>]
 Candidates ==
     {[op |-> "New", dst |-> d, src |-> <<>>, args |-> [mesh |-> b]] : d \in NewSlots, b \in Bases}
     \cup Binary("Append", Z)
-    \cup Unary("SetIndices", [idx |-> <<1, 0, 2>>])
+    \cup Unary("SetIndices", [idx |-> <<1, 0, 2>>]) \cup Unary("SetIndices", [idx |-> <<>>])
     \cup Unary("SetMaterial", [m |-> 3])
     \cup Unary("SetMaterials", [mats |-> <<[n |-> 1, m |-> 2], [n |-> 1, m |-> 1]>>])
     \cup Unary("SetAttr", [ar |-> 1, id |-> 13, data |-> <<<<Q>>, <<2 * Q>>, <<3 * Q>>>>])
     \cup Unary("ModifyAttr", [ar |-> 3, id |-> 1, fn |-> "addidx", k |-> 0])
     \cup Unary("ModifyAttr", [ar |-> 1, id |-> 6, fn |-> "neg", k |-> 0])
     \cup Binary("CopyAttr", [ar |-> 3, id |-> 3])
-    \cup Unary("Translate", [v |-> P(1, 2, 3)])
+    \cup Unary("Translate", [v |-> P(1, 2, 3)]) \cup Unary("Translate", [v |-> P(0, 0, 0)])
     \cup Unary("Scale", [s |-> <<2, 1, 3>>])
-    \cup Unary("Rotate", [axis |-> 2, turns |-> 1])
+    \cup Unary("Rotate", [axis |-> 2, turns |-> 1]) \cup Unary("Rotate", [axis |-> 1, turns |-> 0])
     \cup Unary("ApplyTRS", [trs |-> TRS2])
-    \cup Unary("TranslateAttr", [id |-> 2, v |-> P(0, 1, 0)])
+    \cup Unary("TranslateAttr", [id |-> 2, v |-> P(0, 1, 0)]) \cup Unary("TranslateAttr", [id |-> 3, v |-> P(0, 0, 0)])
     \cup Unary("ScaleAttr", [id |-> 1, origin |-> P(1, 1, 1), s |-> <<2, 2, 2>>])
+    \cup Unary("ScaleAttr", [id |-> 2, origin |-> P(0, 0, 0), s |-> <<2, 3, 1>>])      \* exact zero origin, not Position
+    \cup Unary("ScaleAttr", [id |-> 3, origin |-> P(0, 0, 0), s |-> <<1, 1, 1>>])      \* identity scale
     \cup Unary("RotateAttr", [id |-> 2, axis |-> 1, turns |-> 3])
     \cup Unary("CenterAttr", [id |-> 1])
     \cup Unary("ToPointCloud", Z)
@@ -131,6 +133,7 @@ Do(st) ==
                 ELSE e
        IN
          /\ IF st.dst = 0 THEN pool' = pool
+            ELSE IF IsFail(r) THEN pool' = pool       \* the contract says the call FAILS: nothing is stored
             ELSE IsMesh(r) /\ Len(r.idx) <= 12 /\ pool' = [pool EXCEPT ![st.dst] = r]
     /\ hist' = Append(hist, st)
 
